@@ -575,6 +575,62 @@ def shrink(engine, plan, prop, tier, signature, max_exec=300, max_s=60, accept=N
     return best, n_exec[0]
 
 
+def fresh_verdict(engine_name, plan, prop, tier):
+    """Verdict of one plan executed in a fresh interpreter (no state from earlier runs)."""
+    import subprocess
+    import tempfile
+    with tempfile.NamedTemporaryFile('w', suffix='.json', delete=False, dir=str(scratch_base())) as f:
+        f.write(cjson({'engine': engine_name, 'property': prop, 'tier': tier, 'plan': plan}))
+        name = f.name
+    try:
+        p = subprocess.run([sys.executable, '-X', 'faulthandler', str(VERIF / 'vcheck.py'), '_exec',
+                            name], capture_output=True, text=True, timeout=300)
+        line = [l for l in p.stdout.splitlines() if l.startswith('{')]
+        return json.loads(line[-1]) if line else {'verdict': 'harness_error', 'signature': None}
+    finally:
+        os.unlink(name)
+
+
+def hermetic_shrink(engine, engine_name, plan, prop, tier, signature, max_exec=40):
+    """ddmin over the ops with every candidate executed in a fresh interpreter: the fallback
+    when a violation depends on state the library keeps between runs of one process."""
+    n_exec = [0]
+
+    def fails(p):
+        if n_exec[0] >= max_exec:
+            return False
+        n_exec[0] += 1
+        try:
+            if hasattr(engine, 'validate') and not engine.validate(p):
+                return False
+        except Exception:
+            return False
+        v = fresh_verdict(engine_name, p, prop, tier)
+        return v['verdict'] == 'violation' and v['signature'] == signature
+    best = copy.deepcopy(plan)
+    ops = best.get('ops') or []
+    i = 0
+    while i < len(ops) and n_exec[0] < max_exec:
+        cand = dict(best, ops=ops[:i] + ops[i + 1:])
+        if fails(cand):
+            ops = cand['ops']
+            best = cand
+        else:
+            i += 1
+    if hasattr(engine, 'simplify'):
+        progress = True
+        while progress and n_exec[0] < max_exec:
+            progress = False
+            for cand in engine.simplify(best):
+                if n_exec[0] >= max_exec:
+                    break
+                if fails(cand):
+                    best = cand
+                    progress = True
+                    break
+    return best, n_exec[0]
+
+
 # --------------------------------------------------------------------------------------------------
 # Known findings
 # --------------------------------------------------------------------------------------------------
